@@ -446,7 +446,8 @@ PLANS["C12"] = dict(
     rule=("per case one configuration (secret: empty / 1 byte / 64 / 200 bytes / Unicode; HS256/384/512) and ~200-2000 Authorization values: tokens issued by JWT::issue with exp/nbf/iat claims "
           "at now-1000..now+100000 (integer, fractional, negative, non-numeric), every 16th case EVERY single-character substitution/deletion/insertion of an issued token (else 15 positions), tokens "
           "re-signed with another secret / a prefix of the secret / another algorithm, algorithm-confusion and header-mismatch variants, alg none/None/missing/lower-case/non-string with and without "
-          "signature, typ/cty/kid/whitespace header variants, 1/2/4/5 parts, empty parts, signature prefixes/extension/non-canonical trailing bits/padding, other schemes, no header, OPTIONS. "
+          "signature, typ/cty/kid/whitespace header variants, 1/2/4/5 parts, empty parts, signature prefixes/extension/non-canonical trailing bits/padding, same-length tags that defeat aggregate comparisons (reversed, swapped, rotated, cancelling two-byte xor/sum "
+          "differences, all-zero, sorted), other schemes, no header, OPTIONS. "
           "Every case is driven through the real fang in front of a handler that records the payload it saw; a Python judge (hmac, hashlib, base64, json) decides accept/reject/either per case. "
           "In addition 15 boundary probes per run (3 algorithms x exp / nbf / iat equal to the verification second, exp and nbf one second later): the worker waits for a clock tick, "
           "sends the request, and reads the clock before and after; the observation counts only if both readings are the claim's second (exp == now must be refused, nbf == now and iat == now admitted). "
